@@ -450,6 +450,31 @@ Theorem C03_end_to_end_vocabulary :
 Proof. repeat split. Qed.
 Print Assumptions C03_end_to_end_vocabulary.
 
+(* the calls of the loop, relaxation and bitflip included, fed to the builder model of BinaryCircuit (C11's bstep; the token of an
+   idle call is the exact identity): no exception, the content handed to the backend denotes call_items, and BinaryBackend.statevector's
+   model (C02_bin_spec) returns its semantics -- so `sem (call_items cs) psi0` in nf_perform IS what builder + backend compute.
+   call_wf n: indices < n, control <> target; it follows from call_on (C03_translate_wf) with n = number of used qubits. *)
+Require Import QG.Proofs.SimLoopBuilder.
+Theorem C03_calls_builder_backend :
+  forall (T : Type) (rO rI : T) (radd rmul rsub : T -> T -> T) (ropp : T -> T),
+  ring_theory rO rI radd rmul rsub ropp eq ->
+  forall (A D : Type) (K : consts T A) (ph : A -> Z * Z) (n : nat) (layout : option (list Z))
+         (cs : list (call A D)) (psi : list bool -> T),
+  Forall (call_wf A D n) cs ->
+  exists s', bexec (mat T) (mid2 T rO rI) (b_init (mat T) n layout) (call_ops T rO rI radd rmul ropp A D K ph cs) = Ok (s', nil) /\
+    map (den T rO rI) (b_content (mat T) s') = call_items T rO rI radd rmul ropp A D K cs /\
+    Forall (wf_in T n) (b_content (mat T) s') /\
+    (call_items T rO rI radd rmul ropp A D K cs <> nil ->
+     exists out, bin_statevector T rO radd rmul (mat T) (mmul T radd rmul) (mkron T rmul) (mid2 T rO rI) (mid4 T rO rI) (entry_mat T rO)
+                   n (b_content (mat T) s') psi = Ok out /\
+       state_eq T n out (sem T radd rmul (call_items T rO rI radd rmul ropp A D K cs) psi)).
+Proof. exact calls_builder_backend. Qed.
+Print Assumptions C03_calls_builder_backend.
+Theorem C03_call_on_is_wf :
+  forall (A D : Type) (used : list BinNums.N) (c : call A D), call_on A D used c -> call_wf A D (List.length used) c.
+Proof. exact call_on_call_wf. Qed.
+Print Assumptions C03_call_on_is_wf.
+
 (* non-vacuity: rz(5); delay(7) [label 7 otherwise unused: dropped]; cx(5,2) [control has the higher internal index]; barrier(2,5,3);
    delay(2); measure 5 -> c0; ecr(2,5); measure 2 -> c1 on labels {2,5}: accepted by run(), well-formed, the calls and the
    noise-free program computed by the model, measured ranks [1; 0] *)
